@@ -21,11 +21,8 @@ Proof.
     move/qr_absent_iff: E. rewrite /mrows /mcols /= => H. by inversion H as [|? H']; inversion H'. }
   rewrite /m_example /= /householder_u /euclidean_length /sumsq /= /sq_example.
   rewrite !add0r !mulr0 !addr0 !mulr1 eqxx.
-  have -> : (0 < 1 :> rat) = true by rewrite ltr01.
   have E2 : (1 + 1) * (1 + 1) = 4%:R :> rat by rewrite -[1]/(1%:R) -natrD -natrM.
   rewrite E2.
-  have -> : (4%:R == 1 :> rat) = false by rewrite (eqr_nat _ 4 1).
   split; first by apply/eqP; rewrite pnatr_eq0.
-  split; last by [].
-  by rewrite -natrM.
+  by [].
 Qed.
